@@ -16,8 +16,8 @@ type engineMon struct {
 	bound     int
 	turnSince []bool
 	quiet     int
-	forcedOK  bool // C13 evaluated
-	aloneAt   int  // deck position when only one player was left (-1 = n/a)
+	forcedOK  bool  // C13 evaluated
+	aloneAt   int   // deck position when only one player was left (-1 = n/a)
 	lastRaise int64 // ghost: size of the last bet or full raise of the round (the big blind before any)
 	lastBoard int
 }
